@@ -9,7 +9,7 @@
 //! BOUNDED stand-in (an enumeration, never counted as proof) for the Verus units `callsites*`.
 //!   programs   1..=4 functions (keys in an order that differs from the index order), 0..=3 blocks each, 0..=3 jumps
 //!              per block; a jump is a direct call to an extern symbol, a direct call to an internal function or to a
-//!              dangling tid, an indirect call, a branch; every jump has its own tid and address
+//!              dangling tid, an indirect call, a branch; every jump has its own tid; two neighbouring jumps share an address
 //!   symbols    a subset of a small pool of names (ioctl, system, setuid, setgid, strcpy, rand, srand, ..)
 //!   configs    random sub-lists of the pool (with repetitions), random (initializer, generator) pairs
 //! Reference = the property statement, evaluated position by position (no code shared with the checkers).
@@ -59,7 +59,9 @@ fn tid_at(id: String, addr: String) -> Tid {
 fn sym_tid(i: usize) -> Tid { tid_at(format!("sym{}", i), format!("0x30{:02}", i)) }
 fn fn_tid(f: usize) -> Tid { tid_at(FN_KEYS[f].to_string(), format!("0x10{:02}", f)) }
 fn fn_name(f: usize) -> String { format!("fun_{}", FN_KEYS[f]) }
-fn jmp_tid(f: usize, b: usize, k: usize) -> Tid { tid_at(format!("jmp_{}_{}_{}", f, b, k), format!("0x2{}{}{}", f, b, k)) }
+/// every jump has its own tid ID; the ADDRESS is that of its instruction, and one instruction can produce two IR jumps
+/// (the jumps k = 2m and k = 2m+1 of a block share an address): a warning list deduplicated by address is then wrong
+fn jmp_tid(f: usize, b: usize, k: usize) -> Tid { tid_at(format!("jmp_{}_{}_{}", f, b, k), format!("0x2{}{}{}", f, b, k / 2)) }
 
 impl Case {
     fn to_json(&self) -> Value {
